@@ -615,6 +615,72 @@ def evaluation_interleaving(ctx, stage, src):
 POOL_NAMES = ["s1", "s2", "s 3", "s-4", "s1 ", " s2", "S1", "\ufeffs1", "\u00e9 1", 's"1', "s1\ufeff", "\u3000s2"]
 
 
+class _ParkingEv:
+    """the real evaluator; its first evaluation waits inside the computation until released"""
+
+    def __init__(self, real):
+        self._real, self.entered, self.release, self.first = real, threading.Event(), threading.Event(), True
+
+    @property
+    def segmentation_class_groups_names(self):
+        return self._real.segmentation_class_groups_names
+
+    @property
+    def resulting_metric_keys(self):
+        return self._real.resulting_metric_keys
+
+    def evaluate(self, *a, **k):
+        if self.first:
+            self.first = False
+            self.entered.set()
+            self.release.wait(30)
+        return self._real.evaluate(*a, **k)
+
+
+def failing_evaluation_overlap(ctx, src):
+    """while subject s1 is being computed, another call fails inside the evaluation (arrays the evaluator refuses), then s1 is submitted
+    again: the failure of one call does not make the aggregator forget who else is in process — one row for s1"""
+    inp = {"mode": "failing-overlap", "src": src}
+    if _BLOCKED:
+        return
+    d = workdir("c16fail")
+    try:
+        with quiet():
+            ev = _ParkingEv(mk_evaluator())
+            agg = PA.Panoptica_Aggregator(ev, os.path.join(d, "out.tsv"))
+        a, b = subject_arrays(1)
+        errs = []
+
+        def call(name, x, y):
+            try:
+                with quiet():
+                    agg.evaluate(x, y, name)
+            except Exception as e:
+                errs.append((name, type(e).__name__))
+        t1 = threading.Thread(target=call, args=("s1", a, b), daemon=True)
+        t1.start()
+        ev.entered.wait(30)
+        call("bad", a.astype(np.float32), b.astype(np.float32))          # refused by the evaluator: raises
+        t3 = threading.Thread(target=call, args=("s1", a, b), daemon=True)
+        t3.start()
+        t3.join(30)
+        ev.release.set()
+        t1.join(30)
+        alive = t1.is_alive() or t3.is_alive()
+        with builtins.open(os.path.join(d, "out.tsv"), newline="") as f:
+            rows = list(csv.reader(f, delimiter="\t"))
+        got = sorted(r[0] for r in rows[1:])
+        ctx.case(inp, True)
+        ctx.count("failing_evaluation_while_another_is_in_process")
+        if alive:
+            ctx.violation("C16 violated: a call is still blocked 30 s after every other call returned", inp, key={"kind": "blocked"})
+        elif got.count("s1") != 1:
+            ctx.violation(f"C16 violated: s1 was submitted twice (the second time while the first was still being computed and after another call had failed); the file holds rows {got}",
+                          inp, impl={"rows": got, "errors": errs}, key={"kind": "duplicate"})
+    finally:
+        shutil.rmtree(d, ignore_errors=True)
+
+
 def rand_case(ctx, tag, i):
     rng = ctx.rng
     N = rng.choice([2, 2, 3, 3, 4])
@@ -670,6 +736,8 @@ def run(ctx):
         rand_case(ctx, "rand", i)
     for stage in ("map", "match"):
         evaluation_interleaving(ctx, stage, f"inner.{stage}")
+    for k in range(ctx.scale(2, 6)):
+        failing_evaluation_overlap(ctx, f"failing{k}")
     for k in range(ctx.scale(1, 6)):
         pool_run(ctx, 6, 3, f"pool{k}")
     for k in range(ctx.scale(1, 4)):
@@ -709,6 +777,9 @@ def replay(ctx, rec):
         return
     if i.get("mode") == "pool":
         pool_run(ctx, len(set(i["names"])), len(i["names"]) // len(set(i["names"])), "replay")
+        return
+    if i.get("mode") == "failing-overlap":
+        failing_evaluation_overlap(ctx, "replay")
         return
     if i.get("mode") == "fork":
         fork_run(ctx, len(i["names"]), i["names"], i["delay"], "replay", continue_file=i.get("continue_file", True))
